@@ -978,3 +978,12 @@ func (g *Gen) closureStaysLocal(mc *ssa.MakeClosure) bool {
 }
 
 func (ki KeyInfo) hasRef() bool { return ki.ref != "" || len(ki.sub) > 0 }
+
+// funcID: a stable small integer per function name (identity of function values)
+func (g *Gen) funcID(name string) int {
+	k := "|fn!" + sanitize(shortPkg(name)) + "|"
+	if _, ok := g.funcIDs[k]; !ok {
+		g.funcIDs[k] = 1000 + len(g.funcIDs)
+	}
+	return g.funcIDs[k]
+}
